@@ -238,6 +238,26 @@ func runSeq(run *ev.Run, caseID string, nSess int, mid *rand.Rand, seq []struct 
 			probs = append(probs, w.probe()...)
 			run.Count("probes_between_announcements", 1)
 		}
+		if len(probs) == 0 && mid.Intn(8) == 0 {
+			// everybody leaves, and as many fresh sessions connect in their place: the highest id
+			// learnt survives the sessions (it is the id of the election, not of a connection)
+			n := len(w.ss)
+			for _, s := range w.ss {
+				s.CloseSend()
+				if st, ok := s.Stream.(*drv.ModStream); ok {
+					st.WaitEnd()
+				}
+			}
+			w.ss = nil
+			w.prim = -1
+			for k := 0; k < n && len(probs) == 0; k++ {
+				if err := w.connect(); err != nil {
+					probs = append(probs, "announcement-rejected|a fresh session could not negotiate after every session had left: "+err.Error())
+				}
+			}
+			w.trace = append(w.trace, fmt.Sprintf("all %d sessions leave, %d fresh ones connect", n, n))
+			run.Count("times_every_session_left", 1)
+		}
 		if len(probs) == 0 && w.max != nil && mid.Intn(3) == 0 {
 			m := *w.max
 			fid := []id128{{m.hi + 1, 0}, {m.hi, m.lo + 1}, m, {m.hi, m.lo - 1}, {m.hi + 1, m.lo - 1}}[mid.Intn(5)]
@@ -352,7 +372,7 @@ func TestCheck(t *testing.T) {
 	}
 	run.Sample(map[string]any{"lattice_halves": []string{"0", "1", "2", "2^64-1"}, "example": "pair:6:9 = s0 announces (1,2), s1 announces (2,1): reply to s1 must be (2,1) and only s1's operation is programmed"})
 	run.CollectRaces()
-	run.Finish("(a) every ordered pair (by distinct sessions and by one session) and triple of the 16 ids whose 64-bit halves are in {0,1,2,2^64-1} - exhaustive for that lattice; (b) random sequences of 2-7 announcements by 2-4 sessions over boundary-structured ids (neighbours +-1 in either half, swapped halves, repeats, decreases, ties); after each announcement the reply must be the running 128-bit maximum, afterwards one operation per session decides who is primary; in every other sequence the sessions also operate BETWEEN announcements (the primary at that moment, nobody else, is accepted) and Flush RPCs carrying ids above / equal to / below the maximum are interleaved (a Flush is not an announcement: later replies still carry the maximum ANNOUNCED); (c) concurrent announcements by 8 sessions on separate direct streams under the race detector, history checked with porcupine against a max-register, then the same probe at quiescence. Distinct = by announcement sequence", 500, false)
+	run.Finish("(a) every ordered pair (by distinct sessions and by one session) and triple of the 16 ids whose 64-bit halves are in {0,1,2,2^64-1} - exhaustive for that lattice; (b) random sequences of 2-7 announcements by 2-4 sessions over boundary-structured ids (neighbours +-1 in either half, swapped halves, repeats, decreases, ties); after each announcement the reply must be the running 128-bit maximum, afterwards one operation per session decides who is primary; in every other sequence the sessions also operate BETWEEN announcements (the primary at that moment, nobody else, is accepted) and Flush RPCs carrying ids above / equal to / below the maximum are interleaved (a Flush is not an announcement: later replies still carry the maximum ANNOUNCED), and now and then every session leaves and fresh ones connect (the maximum survives the sessions); (c) concurrent announcements by 8 sessions on separate direct streams under the race detector, history checked with porcupine against a max-register, then the same probe at quiescence. Distinct = by announcement sequence", 500, false)
 }
 
 func concurrent(run *ev.Run, caseID string) {
